@@ -167,6 +167,25 @@ def build(run):
                 return (lambda o: getattr(e, hname)(node, o)), [S("d0")]
             transfer(f"transfer/{hname}/{cellname}", make, lambda args: nn(*args),
                      lambda args, r: z3.And(ge(r, term(args[0]) - 1), ge(r, 0)), handler=getattr(SumDegreeEstimator, hname))
+    # ---- remaining handlers: piecewise / non-polynomial operators never estimate below their operands; a shape derivative in a direction of
+    # degree q of an integrand of degree p has terms grad(f).V and f div(V): degree p + q - 1 on affine cells
+    for hname, nargs, post in [("abs", 1, lambda a, r: ge(r, term(a[0]))), ("math_function", 1, lambda a, r: ge(r, term(a[0]))),
+                               ("min_value", 2, lambda a, r: z3.And(ge(r, term(a[0])), ge(r, term(a[1])))),
+                               ("max_value", 2, lambda a, r: z3.And(ge(r, term(a[0])), ge(r, term(a[1])))),
+                               ("atan2", 2, lambda a, r: z3.And(ge(r, term(a[0])), ge(r, term(a[1])))),
+                               ("expr_mapping", 2, lambda a, r: z3.And(ge(r, term(a[0])), ge(r, term(a[1])))),
+                               ("bessel_function", 2, lambda a, r: ge(r, term(a[1]))),
+                               ("coordinate_derivative", 4, lambda a, r: z3.And(ge(r, term(a[0]) + term(a[2]) - 1), ge(r, 0)))]:
+        def make(hname=hname, nargs=nargs):
+            ops = [S(f"d{i}") for i in range(nargs)]
+            e = est()
+            return (lambda *o: getattr(e, hname)(a_op, *o)), ops
+        transfer(f"transfer/{hname}", make, lambda args: nn(*args), post, handler=getattr(SumDegreeEstimator, hname))
+    for hname in ("cell_avg", "facet_avg"):          # averages are cellwise constant: any non-negative estimate is an upper bound
+        def make(hname=hname):
+            e = est()
+            return (lambda o: getattr(e, hname)(a_op, o)), [S("d0")]
+        transfer(f"transfer/{hname}", make, lambda args: nn(*args), lambda a, r: ge(r, 0), handler=getattr(SumDegreeEstimator, hname))
     # ---- power
     exps = [C.IntValue(0), C.IntValue(1), C.IntValue(2), C.IntValue(3), C.IntValue(5)]
     for g in exps:
